@@ -242,10 +242,10 @@ def generic_path(chk, mod):
             uv = [e for e in p.log if e[0] == 'call:unit_vectors']
             dr = [e for e in p.log if e[0] == 'call:drop']
             tt = [e for e in p.log if e[0] == 'call:two_theta']
-            if not uv and not dr:
-                # none of the callee stand-ins was reached: the function does this work itself or through other helpers -- the modular
+            if not uv or not dr or not tt:
+                # a callee stand-in was not reached: the function does this work itself or through other helpers -- the modular
                 # contract (caller against callee contracts) does not address that shape of the code; the stand-ins decide
-                raise core.Unsupported(f'{pre} does not call beam_aligned_unit_vectors / _drop_due_to_gravity through their module-level names')
+                raise core.Unsupported(f'{pre} does not call beam_aligned_unit_vectors / _drop_due_to_gravity / two_theta through their module-level names')
             chk.decided(f'{pre}/uses-callees-once[{tag}]', len(uv) == 1 and len(dr) == 1 and len(tt) == 1,
                         detail=f'unit_vectors {len(uv)}, drop {len(dr)}, two_theta {len(tt)}')
             if not (len(uv) == 1 and len(dr) == 1 and len(tt) == 1):
@@ -292,7 +292,7 @@ def _common(chk, pre, tag, p, a, base):
     uv = [e for e in p.log if e[0] == 'call:unit_vectors']
     dr = [e for e in p.log if e[0] == 'call:drop']
     ok = len(uv) == 1 and len(dr) == 1
-    if not uv and not dr:
+    if not uv or not dr:
         raise core.Unsupported(f'{pre} does not call beam_aligned_unit_vectors / _drop_due_to_gravity through their module-level names')
     chk.decided(f'{pre}/uses-callees-once[{tag}]', ok, detail=f'unit_vectors {len(uv)}, drop {len(dr)}')
     if not ok:
@@ -435,6 +435,9 @@ def yz_variant(chk, mod):
         absdev = z3.If(dev >= 0, dev, -dev)
         thr = core.tz(1e-10) * gN
         nret = 0
+        if not any(e[0] == 'call:unit_vectors' for p in paths for e in p.log):
+            # the basis is not obtained through beam_aligned_unit_vectors: which refusal is whose cannot be told from the callee contract
+            raise core.Unsupported(f'{pre} does not call beam_aligned_unit_vectors through its module-level name')
         for i, p in enumerate(paths):
             tag = f'wavelength:{wdt}/path{i}'
             hy0 = hyps_of(p, base)
